@@ -3,9 +3,9 @@
    hash256 is universally quantified: any function returning 32 bytes.
    Text = list of code points; networks 0 mainnet, 1 testnet, 2 signet, 3 regtest. *)
 From V Require Import Base.Prelude Base.Ints Base.Lfsr Model.Helper Model.Script Model.Base58
-  Model.Bech32 Model.Address
-  Proofs.Base58P Proofs.PolymodP Proofs.Bech32Sweep Proofs.Bech32DetectP Proofs.Bech32P
-  Proofs.AddressP.
+  Model.Bech32 Model.Address Model.AddressExt
+  Proofs.Base58P Proofs.Base58ConvP Proofs.PolymodP Proofs.Bech32Sweep Proofs.Bech32DetectP Proofs.Bech32P
+  Proofs.AddressP Proofs.Base58CheckConvP Proofs.SegwitConvP Proofs.AddressConvP.
 
 (* ------------------------------------------------------------------ Base58Check *)
 
@@ -219,6 +219,311 @@ Theorem C09_wif_range :
 Proof. exact wif_range. Qed.
 Print Assumptions C09_wif_range.
 
+(* ================================================================== CONVERSE DIRECTION
+   decode, then encode: which texts the decoders accept, and that accepted (canonical) texts
+   are exactly the encoders' outputs.  Statements named _refuted exhibit concrete texts showing
+   that a side condition cannot be dropped; every witness was replayed on the implementation. *)
+
+(* ------------------------------------------------------------------ Base58Check *)
+
+(* the conversion loop of raw_decode_base58 is injective on texts, and encode_base58 undoes it *)
+Theorem C09_base58_conversion_encode :
+  forall s c, b58_to_bytes s = Ok c -> bytes_ok c /\ (c <> [] -> encode_base58 c = Ok s).
+Proof. exact b58_to_bytes_spec. Qed.
+Print Assumptions C09_base58_conversion_encode.
+
+Theorem C09_base58_conversion_injective :
+  forall s s' c, c <> [] -> b58_to_bytes s = Ok c -> b58_to_bytes s' = Ok c -> s = s'.
+Proof. exact b58_to_bytes_inj. Qed.
+Print Assumptions C09_base58_conversion_injective.
+
+(* a text is accepted with payload b exactly when it is encode_base58_checksum(b) *)
+Theorem C09_base58check_accepted_iff_encoded :
+  forall (hash256 : bytes -> bytes),
+  (forall x, length (hash256 x) = 32%nat) -> (forall x, bytes_ok (hash256 x)) ->
+  forall s b,
+  raw_decode_base58 hash256 s = Ok b <-> (bytes_ok b /\ encode_base58_checksum hash256 b = Ok s).
+Proof. exact base58check_accepted_iff_encoded. Qed.
+Print Assumptions C09_base58check_accepted_iff_encoded.
+
+Theorem C09_base58check_decode_injective :
+  forall (hash256 : bytes -> bytes), (forall x, length (hash256 x) = 32%nat) ->
+  forall s1 s2 b,
+  raw_decode_base58 hash256 s1 = Ok b -> raw_decode_base58 hash256 s2 = Ok b -> s1 = s2.
+Proof. exact raw_decode_base58_inj. Qed.
+Print Assumptions C09_base58check_decode_injective.
+
+Theorem C09_base58check_encode_injective :
+  forall (hash256 : bytes -> bytes),
+  (forall x, length (hash256 x) = 32%nat) -> (forall x, bytes_ok (hash256 x)) ->
+  forall b1 b2 s, bytes_ok b1 -> bytes_ok b2 ->
+  encode_base58_checksum hash256 b1 = Ok s -> encode_base58_checksum hash256 b2 = Ok s -> b1 = b2.
+Proof. exact encode_base58_checksum_inj. Qed.
+Print Assumptions C09_base58check_encode_injective.
+
+(* ------------------------------------------------------------------ WIF *)
+
+(* PrivateKey.parse(w) = (secret, mainnet, compressed): the secret is in [1, N-1], and when the
+   payload has one of the two WIF lengths (33 / 34 bytes), wif() of the parsed key is w itself *)
+Theorem C09_wif_parse_encode :
+  forall (hash256 : bytes -> bytes), (forall x, length (hash256 x) = 32%nat) ->
+  forall w secret mainnet compressed,
+  wif_parse hash256 w = Ok (secret, mainnet, compressed) ->
+  1 <= secret < secp_n /\
+  exists raw, raw_decode_base58 hash256 w = Ok raw /\
+    (compressed = true -> length raw = 34%nat) /\
+    ((compressed = true \/ length raw = 33%nat) ->
+     wif_encode hash256 secret mainnet compressed = Ok w).
+Proof. exact wif_parse_encode. Qed.
+Print Assumptions C09_wif_parse_encode.
+
+(* the length condition cannot be dropped: Base58Check(80 01) parses as the same key as the
+   51-character WIF of the secret 1 (known finding C09-wif-parse-any-length) *)
+Theorem C09_wif_parse_short_payload_refuted :
+  forall (hash256 : bytes -> bytes),
+  (forall x, length (hash256 x) = 32%nat) -> (forall x, bytes_ok (hash256 x)) ->
+  exists w1 w2, w1 <> w2 /\
+    wif_encode hash256 1 true false = Ok w1 /\
+    encode_base58_checksum hash256 [128; 1] = Ok w2 /\
+    wif_parse hash256 w1 = Ok (1, true, false) /\ wif_parse hash256 w2 = Ok (1, true, false).
+Proof. exact wif_parse_short_payload_refuted. Qed.
+Print Assumptions C09_wif_parse_short_payload_refuted.
+
+(* ------------------------------------------------------------------ Bech32 / Bech32m *)
+
+(* the six checksum symbols are determined by what precedes them (any start state, any constant) *)
+Theorem C09_checksum_unique :
+  forall const c vs chk,
+  st_ok c -> st_ok const -> Forall sym5 vs -> Forall sym5 chk -> length chk = 6%nat ->
+  run GEN 25 5 c (vs ++ chk) = const ->
+  chk = chk_syms (Z.lxor (run GEN 25 5 c (vs ++ zeros6)) const).
+Proof. exact checksum_unique. Qed.
+Print Assumptions C09_checksum_unique.
+
+(* ranges of what decode_bech32 returns (it does NOT restrict the version to 0..16) *)
+Theorem C09_decode_bech32_wf :
+  forall a net v prog, decode_bech32 a = Ok (net, v, prog) ->
+  (net = 0 \/ net = 1 \/ net = 3) /\ 0 <= v < 32 /\ bytes_ok prog /\ (2 <= length prog <= 40)%nat.
+Proof. exact decode_bech32_wf. Qed.
+Print Assumptions C09_decode_bech32_wf.
+
+(* Shape of every accepted text, and the converse of the round trip: if the separator is '1',
+   there are fewer than 5 padding bits and they are zero, the text is exactly
+   encode_bech32_checksum of the decoded (version, program) on the decoded network.
+   pad_bits body = 5*|body| mod 8, pad_value body = (body as a base-32 number) mod 2^pad_bits. *)
+Theorem C09_segwit_decode_encode :
+  forall a net v prog,
+  decode_bech32 a = Ok (net, v, prog) ->
+  exists hrp sep body chk,
+    a = hrp ++ [sep] ++ map b32c (v :: body ++ chk) /\ prefix_of net = Ok hrp /\
+    known_hrp hrp /\ (hrp = hrp_bcrt \/ sep = 49) /\
+    Forall sym5 (v :: body ++ chk) /\ length chk = 6%nat /\
+    (sep = 49 -> pad_bits body < 5 -> pad_value body = 0 ->
+     encode_bech32_checksum (witness_program v prog) net = Ok a).
+Proof. exact segwit_decode_encode. Qed.
+Print Assumptions C09_segwit_decode_encode.
+
+(* the same with the conditions stated on the text alone ([canonical_text]) ... *)
+Theorem C09_segwit_decode_encode_canonical :
+  forall a net v prog,
+  decode_bech32 a = Ok (net, v, prog) -> canonical_text a ->
+  encode_bech32_checksum (witness_program v prog) net = Ok a.
+Proof. exact segwit_decode_encode_canonical. Qed.
+Print Assumptions C09_segwit_decode_encode_canonical.
+
+(* ... so that decode_bech32 is injective on canonical texts ... *)
+Theorem C09_segwit_decode_canonical_injective :
+  forall a1 a2 r, canonical_text a1 -> canonical_text a2 ->
+  decode_bech32 a1 = Ok r -> decode_bech32 a2 = Ok r -> a1 = a2.
+Proof. exact segwit_decode_canonical_inj. Qed.
+Print Assumptions C09_segwit_decode_canonical_injective.
+
+(* ... and canonical texts are exactly what the encoder produces (versions 0..16, 2..40 bytes) *)
+Theorem C09_segwit_encode_is_canonical :
+  forall net v prog a,
+  0 <= v <= 16 -> bytes_ok prog -> (2 <= length prog <= 40)%nat -> 0 <= net <= 3 ->
+  encode_bech32_checksum (witness_program v prog) net = Ok a -> canonical_text a.
+Proof. exact segwit_encode_is_canonical. Qed.
+Print Assumptions C09_segwit_encode_is_canonical.
+
+(* None of the conditions can be dropped.  wA2 is BIP173's INVALID vector "non-zero padding":
+   decode_bech32 accepts it with the result of the valid wA1 ... *)
+Theorem C09_decode_nonzero_padding_refuted :
+  wA1 <> wA2 /\ decode_bech32 wA1 = Ok (1, 0, wA_prog) /\ decode_bech32 wA2 = Ok (1, 0, wA_prog) /\
+  encode_bech32_checksum (witness_program 0 wA_prog) 1 = Ok wA1.
+Proof. exact decode_nonzero_padding_refuted. Qed.
+Print Assumptions C09_decode_nonzero_padding_refuted.
+
+(* ... five zero padding bits (BIP173: more than 4 is invalid) are accepted ... *)
+Theorem C09_decode_long_padding_refuted :
+  wB1 <> wB2 /\ decode_bech32 wB1 = Ok (0, 0, wB_prog) /\ decode_bech32 wB2 = Ok (0, 0, wB_prog) /\
+  encode_bech32_checksum (witness_program 0 wB_prog) 0 = Ok wB1.
+Proof. exact decode_long_padding_refuted. Qed.
+Print Assumptions C09_decode_long_padding_refuted.
+
+(* ... and the character after "bcrt" is never looked at *)
+Theorem C09_decode_regtest_separator_refuted :
+  wC1 <> wC2 /\ decode_bech32 wC1 = Ok (3, 0, wB_prog) /\ decode_bech32 wC2 = Ok (3, 0, wB_prog) /\
+  encode_bech32_checksum (witness_program 0 wB_prog) 3 = Ok wC1.
+Proof. exact decode_regtest_separator_refuted. Qed.
+Print Assumptions C09_decode_regtest_separator_refuted.
+
+(* ------------------------------------------------------------------ the five templates, uniformly *)
+
+(* std_template t h: t = 0 P2PKH, 1 P2SH, 2 P2WPKH (20-byte h), 3 P2WSH, 4 P2TR (32-byte h);
+   std_script / std_address: the scriptPubKey commands and ScriptPubKey.address(network) *)
+Theorem C09_std_address_roundtrip :
+  forall (hash256 : bytes -> bytes),
+  (forall x, length (hash256 x) = 32%nat) -> (forall x, bytes_ok (hash256 x)) ->
+  forall t h net, std_template t h -> 0 <= net <= 3 ->
+  exists a, std_address hash256 t h net = Ok a /\
+            address_to_script_pubkey hash256 a = Ok (std_script t h) /\
+            to_address_spk hash256 a = Ok (std_script t h).
+Proof. exact std_address_roundtrip. Qed.
+Print Assumptions C09_std_address_roundtrip.
+
+(* per network the address determines template and hash, across all five templates *)
+Theorem C09_std_address_injective :
+  forall (hash256 : bytes -> bytes),
+  (forall x, length (hash256 x) = 32%nat) -> (forall x, bytes_ok (hash256 x)) ->
+  forall t1 h1 t2 h2 net a,
+  std_template t1 h1 -> std_template t2 h2 -> 0 <= net <= 3 ->
+  std_address hash256 t1 h1 net = Ok a -> std_address hash256 t2 h2 net = Ok a ->
+  t1 = t2 /\ h1 = h2.
+Proof. exact std_address_injective. Qed.
+Print Assumptions C09_std_address_injective.
+
+(* TxOut.to_address returns only the five templates with hashes of the right length; a canonical
+   segwit text / a Base58Check text with the version byte of (template, network) is the address
+   of the returned scriptPubKey: address -> script -> address *)
+Theorem C09_to_address_converse :
+  forall (hash256 : bytes -> bytes), (forall x, length (hash256 x) = 32%nat) ->
+  forall a cs, to_address_spk hash256 a = Ok cs ->
+  exists t h, std_template t h /\ cs = std_script t h /\
+    ((2 <= t /\ exists net, (net = 0 \/ net = 1 \/ net = 3) /\
+                 decode_bech32 a = Ok (net, seg_version t, h) /\
+                 (canonical_text a -> std_address hash256 t h net = Ok a)) \/
+     (t < 2 /\ exists ver, raw_decode_base58 hash256 a = Ok (ver :: h) /\
+                 forall net, ver = b58_version t net -> std_address hash256 t h net = Ok a)).
+Proof. exact to_address_converse. Qed.
+Print Assumptions C09_to_address_converse.
+
+(* the same for address_to_script_pubkey (which checks no hash length: the returned commands have
+   one of the five SHAPES, tied to the decoder that accepted the text) *)
+Theorem C09_address_to_script_pubkey_converse :
+  forall (hash256 : bytes -> bytes), (forall x, length (hash256 x) = 32%nat) ->
+  forall a cs, address_to_script_pubkey hash256 a = Ok cs ->
+  (exists t raw, (t = 0 \/ t = 1) /\ raw_decode_base58 hash256 a = Ok raw /\
+      cs = b58_script t (skipn 1 raw) /\
+      forall net, raw = b58_version t net :: skipn 1 raw ->
+                  std_address hash256 t (skipn 1 raw) net = Ok a) \/
+  (exists t h net, (t = 2 \/ t = 3 \/ t = 4) /\ decode_bech32 a = Ok (net, seg_version t, h) /\
+      cs = seg_script t h /\ (canonical_text a -> std_address hash256 t h net = Ok a)).
+Proof. exact address_to_script_pubkey_converse. Qed.
+Print Assumptions C09_address_to_script_pubkey_converse.
+
+(* KNOWN FINDING C09-parsers-accept-non-addresses.  The parsers accept more than the addresses:
+   (1) BIP173's invalid non-zero-padding vector gives the same P2WSH script as the valid address *)
+Theorem C09_address_parsers_padding_refuted :
+  forall (hash256 : bytes -> bytes),
+  wA1 <> wA2 /\
+  address_to_script_pubkey hash256 wA1 = Ok (p2wsh_script wA_prog) /\
+  address_to_script_pubkey hash256 wA2 = Ok (p2wsh_script wA_prog) /\
+  to_address_spk hash256 wA1 = Ok (p2wsh_script wA_prog) /\
+  to_address_spk hash256 wA2 = Ok (p2wsh_script wA_prog) /\
+  p2wsh_address wA_prog 1 = Ok wA1.
+Proof. exact address_parsers_padding_refuted. Qed.
+Print Assumptions C09_address_parsers_padding_refuted.
+
+(* (2) a 43-character text with 5 padding bits is read by TxOut.to_address as the P2WPKH script
+   of the 42-character address *)
+Theorem C09_to_address_long_padding_refuted :
+  forall (hash256 : bytes -> bytes),
+  wB1 <> wB2 /\
+  to_address_spk hash256 wB1 = Ok (p2wpkh_script wB_prog) /\
+  to_address_spk hash256 wB2 = Ok (p2wpkh_script wB_prog) /\
+  address_to_script_pubkey hash256 wB2 = Err /\
+  p2wpkh_address wB_prog 0 = Ok wB1.
+Proof. exact to_address_long_padding_refuted. Qed.
+Print Assumptions C09_to_address_long_padding_refuted.
+
+(* (3) address_to_script_pubkey tests the length of the text, not of the program: a version-0
+   scriptPubKey with a 21-byte program comes back *)
+Theorem C09_address_to_script_pubkey_length_refuted :
+  forall (hash256 : bytes -> bytes),
+  address_to_script_pubkey hash256 wD = Ok (p2wpkh_script wD_prog) /\ length wD_prog = 21%nat /\
+  to_address_spk hash256 wD = Err.
+Proof. exact address_to_script_pubkey_length_refuted. Qed.
+Print Assumptions C09_address_to_script_pubkey_length_refuted.
+
+(* (4) the Base58Check version byte is never compared: for EVERY 20-byte hash, the text of
+   0x70 :: h starts with 'n', is read as P2PKH(h) by both parsers and is no address at all *)
+Theorem C09_base58_version_ignored_refuted :
+  forall (hash256 : bytes -> bytes),
+  (forall x, length (hash256 x) = 32%nat) -> (forall x, bytes_ok (hash256 x)) ->
+  forall h, bytes_ok h -> length h = 20%nat ->
+  exists a, encode_base58_checksum hash256 (112 :: h) = Ok a /\
+            address_to_script_pubkey hash256 a = Ok (p2pkh_script h) /\
+            to_address_spk hash256 a = Ok (p2pkh_script h) /\
+            forall t h' net, (t = 0 \/ t = 1) -> bytes_ok h' -> b58_address hash256 t h' net <> Ok a.
+Proof. exact base58_version_ignored_refuted. Qed.
+Print Assumptions C09_base58_version_ignored_refuted.
+
+(* ------------------------------------------------------------------ other entry points *)
+
+(* RedeemScript.address and SegwitPubKey.p2sh_address; hash160 is any function with 20-byte output *)
+Theorem C09_redeem_script_address_roundtrip :
+  forall (hash256 : bytes -> bytes),
+  (forall x, length (hash256 x) = 32%nat) -> (forall x, bytes_ok (hash256 x)) ->
+  forall (hash160 : bytes -> bytes),
+  (forall x, length (hash160 x) = 20%nat) -> (forall x, bytes_ok (hash160 x)) ->
+  forall cs raw net, raw_serialize (mk_script cs) = Ok raw ->
+  exists a, redeem_script_address hash256 hash160 cs net = Ok a /\
+            segwit_p2sh_address hash256 hash160 cs net = Ok a /\
+            address_to_script_pubkey hash256 a = Ok (p2sh_script (hash160 raw)) /\
+            to_address_spk hash256 a = Ok (p2sh_script (hash160 raw)).
+Proof. exact redeem_script_address_roundtrip. Qed.
+Print Assumptions C09_redeem_script_address_roundtrip.
+
+(* WitnessScript.address; sha256 is any function with 32-byte output *)
+Theorem C09_witness_script_address_roundtrip :
+  forall (hash256 sha256 : bytes -> bytes),
+  (forall x, length (sha256 x) = 32%nat) -> (forall x, bytes_ok (sha256 x)) ->
+  forall cs raw net, raw_serialize (mk_script cs) = Ok raw -> 0 <= net <= 3 ->
+  exists a, witness_script_address sha256 cs net = Ok a /\
+            decode_bech32 a = Ok (net_back net, 0, sha256 raw) /\
+            address_to_script_pubkey hash256 a = Ok (p2wsh_script (sha256 raw)) /\
+            to_address_spk hash256 a = Ok (p2wsh_script (sha256 raw)).
+Proof. exact witness_script_address_roundtrip. Qed.
+Print Assumptions C09_witness_script_address_roundtrip.
+
+(* WitnessScript.p2sh_address (P2SH-P2WSH) *)
+Theorem C09_witness_script_p2sh_address_roundtrip :
+  forall (hash256 : bytes -> bytes),
+  (forall x, length (hash256 x) = 32%nat) -> (forall x, bytes_ok (hash256 x)) ->
+  forall (hash160 sha256 : bytes -> bytes),
+  (forall x, length (hash160 x) = 20%nat) -> (forall x, bytes_ok (hash160 x)) ->
+  (forall x, length (sha256 x) = 32%nat) -> (forall x, bytes_ok (sha256 x)) ->
+  forall cs raw net, raw_serialize (mk_script cs) = Ok raw ->
+  exists a, witness_script_p2sh_address hash256 hash160 sha256 cs net = Ok a /\
+            address_to_script_pubkey hash256 a = Ok (p2sh_script (hash160 (0 :: 32 :: sha256 raw))) /\
+            to_address_spk hash256 a = Ok (p2sh_script (hash160 (0 :: 32 :: sha256 raw))).
+Proof. exact witness_script_p2sh_address_roundtrip. Qed.
+Print Assumptions C09_witness_script_p2sh_address_roundtrip.
+
+(* byte level: serialised standard scriptPubKey -> ScriptPubKey.parse (typed object) ->
+   address(network) -> address_to_script_pubkey -> serialize() = the same bytes *)
+Theorem C09_spk_bytes_roundtrip :
+  forall (hash256 : bytes -> bytes),
+  (forall x, length (hash256 x) = 32%nat) -> (forall x, bytes_ok (hash256 x)) ->
+  forall t h net, std_template t h -> 0 <= net <= 3 ->
+  exists b a, serialize_script (mk_script (std_script t h)) = Ok b /\
+              spk_bytes_address hash256 b net = Ok a /\
+              std_address hash256 t h net = Ok a /\
+              address_to_spk_bytes hash256 a = Ok b.
+Proof. exact spk_bytes_roundtrip. Qed.
+Print Assumptions C09_spk_bytes_roundtrip.
+
 (* ------------------------------------------------------------------ non-vacuity *)
 
 Definition toy_hash (b : bytes) : bytes := repeatz (zlen b mod 256) 32.
@@ -238,6 +543,41 @@ Example ex_addr_subst_version_char :
   decode_bech32 [98;99;49;112;119;53;48;56;100;54;113;101;106;120;116;100;103;52;121;53;114;51;122;97;114;
         118;97;114;121;48;99;53;120;119;55;107;118;56;102;51;116;52] = Err.
 Proof. vm_compute. reflexivity. Qed.
+
+(* hypotheses of the converse theorems are satisfiable *)
+Example ex_canonical : canonical_text wA1.
+Proof.
+  apply (segwit_encode_is_canonical 1 0 wA_prog); try lia.
+  - apply bytes_okb_ok. vm_compute. reflexivity.
+  - cbn. lia.
+  - vm_compute. reflexivity.
+Qed.
+(* ... and the invalid BIP173 vector is not canonical, although decode_bech32 accepts it *)
+Example ex_not_canonical : ~ canonical_text wA2.
+Proof.
+  intros C. pose proof (proj1 (proj2 (proj2 decode_nonzero_padding_refuted))) as D.
+  pose proof (segwit_decode_encode_canonical wA2 1 0 wA_prog D C) as E.
+  rewrite (proj2 (proj2 (proj2 decode_nonzero_padding_refuted))) in E. discriminate.
+Qed.
+Example ex_std_template : std_template 4 wA_prog /\ std_template 0 wB_prog.
+Proof.
+  split; (split; [apply bytes_okb_ok; vm_compute; reflexivity|]); [right|left]; split; auto.
+Qed.
+Example ex_to_address_accepts : to_address_spk toy_hash wA1 = Ok (p2wsh_script wA_prog).
+Proof. vm_compute. reflexivity. Qed.
+Example ex_wif_parse_accepts :
+  exists w, wif_parse toy_hash w = Ok (1, true, true).
+Proof.
+  destruct (wif_roundtrip toy_hash toy_hash_len toy_hash_ok 1 true true ltac:(unfold secp_n; lia))
+    as [w [_ P]]. eauto.
+Qed.
+Example ex_raw_serialize : raw_serialize (mk_script [Op 82; Push [2; 1]; Op 174]) = Ok [82; 2; 2; 1; 174].
+Proof. reflexivity. Qed.
+(* version 17 is accepted by decode_bech32 (BIP173 allows 0..16 only) and re-encodes to itself *)
+Example ex_version_17 :
+  decode_bech32 [98;99;49;51;113;113;113;113;106;103;103;102;122;113] = Ok (0, 17, [0; 0]) /\
+  encode_bech32_checksum (witness_program 17 [0; 0]) 0 = Ok [98;99;49;51;113;113;113;113;106;103;103;102;122;113].
+Proof. split; vm_compute; reflexivity. Qed.
 
 (* The constants written in the model are the constants of the SOURCE: coq/Generated/SrcConsts.v is regenerated
    from /repo/buidl/*.py by harness/gen_coq_consts.py on every run; the statements are spelled out in
